@@ -79,8 +79,51 @@ def label_columns(ds):
 # --------------------------------------------------------------------------
 # building real result objects from a JSON case
 
-def _dataset(shape, value, error, kinds, name):
+LAYOUTS = 'CFTSNB'
+
+
+def relayout(arr, mode):
+    '''the same logical array in another memory layout: C, Fortran order, Transposed view of a
+    C array, Strided view into a larger buffer, Negative strides, read-only Broadcast (zero strides;
+    when the elements are not all equal: a read-only copy)'''
+    arr = np.asarray(arr)
+    if arr.ndim == 0 or mode == 'C':
+        return arr
+    if mode == 'F':
+        return np.asfortranarray(arr)
+    if mode == 'T':
+        return np.ascontiguousarray(arr.T).T
+    if mode == 'S':
+        big = np.zeros(tuple(2 * n + 1 for n in arr.shape), dtype=arr.dtype)
+        view = big[tuple(slice(1, None, 2) for _ in arr.shape)]
+        view[...] = arr
+        return view
+    if mode == 'N':
+        rev = tuple(slice(None, None, -1) for _ in arr.shape)
+        return np.ascontiguousarray(arr[rev])[rev]
+    first = arr.reshape(-1)[0]
+    if arr.size and bool(np.all(arr == first)):
+        return np.broadcast_to(np.array(first, dtype=arr.dtype), arr.shape)
+    out = np.array(arr, order='F')
+    out.setflags(write=False)
+    return out
+
+
+class Lay:
+    '''hands out the layout codes of a case, cyclically'''
+    def __init__(self, codes):
+        self.codes = codes or 'C'
+        self.pos = 0
+
+    def __call__(self, arr):
+        mode = self.codes[self.pos % len(self.codes)]
+        self.pos += 1
+        return relayout(arr, mode)
+
+
+def _dataset(shape, value, error, kinds, name, lay=None):
     from valjean.eponine.dataset import Dataset
+    lay = lay or Lay('C')
     if shape == ():
         return Dataset(np.float64(value[0]), np.float64(error[0]), name=name)
     bins = OrderedDict()
@@ -89,8 +132,32 @@ def _dataset(shape, value, error, kinds, name):
             bins[f'x{k}'] = np.arange(n + 1, dtype=float) * (k + 1)
         else:
             bins[f'x{k}'] = np.arange(n, dtype=float) * (k + 1) + 0.5
-    return Dataset(np.array(value, dtype=float).reshape(shape),
-                   np.array(error, dtype=float).reshape(shape), bins=bins, name=name)
+    return Dataset(lay(np.array(value, dtype=float).reshape(shape)),
+                   lay(np.array(error, dtype=float).reshape(shape)), bins=bins, name=name)
+
+
+def relayout_result(kind, result, codes):
+    '''the arrays a result object carries (oracles, t, p-values, rejections), in other layouts'''
+    if not codes:
+        return result
+    lay = Lay(codes)
+    def redo(seq):   # noqa: E306
+        return [lay(a) if isinstance(a, np.ndarray) else a for a in seq]
+    if kind == 'equal':
+        result.equal = redo(result.equal)
+    elif kind == 'approx':
+        result.approx_equal = redo(result.approx_equal)
+    elif kind == 'student':
+        result.tstud = redo(result.tstud)
+        result.pvalue = redo(result.pvalue)
+    else:
+        first = result.first_test_res
+        first.tstud = redo(first.tstud)
+        first.pvalue = redo(first.pvalue)
+        result.rejected_null_hyp = redo(result.rejected_null_hyp)
+        if kind == 'holm':
+            result.alphas_i = redo(result.alphas_i)
+    return result
 
 
 def build_data_test(case, rot=0):
@@ -103,14 +170,17 @@ def build_data_test(case, rot=0):
     kinds = case.get('bins') or ['e'] * len(shape)
     refv = [10.0 + i for i in range(nbin)]
     refe = [0.5 + 0.25 * (i % 3) for i in range(nbin)]
-    ref = _dataset(shape, refv, refe, kinds, 'ref')
+    lay = Lay(case.get('lay'))
+    if case.get('const_err'):
+        refe = [0.5] * nbin
+    ref = _dataset(shape, refv, refe, kinds, 'ref', lay)
     dsets = []
     kind = case['kind'] if case['kind'] in DATA_KINDS else 'student'
     for k, fails in enumerate(case['fail']):
         fails = fails[rot:] + fails[:rot]
         vals, errs = [], []
         for i in range(nbin):
-            err = 0.5 + 0.125 * ((i + k) % 4)
+            err = 0.75 + 0.125 * k if case.get('const_err') else 0.5 + 0.125 * ((i + k) % 4)
             if kind in ('equal', 'approx'):
                 vals.append(refv[i] + (1.0 + k if fails[i] else 0.0))
             else:
@@ -121,7 +191,7 @@ def build_data_test(case, rot=0):
                 sign = -1.0 if (i + k) % 2 else 1.0
                 vals.append(float('nan') if lev == 3 else refv[i] + sign * tval * sig)
             errs.append(err)
-        dsets.append(_dataset(shape, vals, errs, kinds, f'ds{k}'))
+        dsets.append(_dataset(shape, vals, errs, kinds, f'ds{k}', lay))
     name = case.get('name', 'the test')
     if kind == 'equal':
         return TestEqual(ref, *dsets, name=name)
@@ -133,11 +203,12 @@ def build_data_test(case, rot=0):
 def build_result(case, rot=0):
     kind = case['kind']
     if kind in DATA_KINDS:
-        return build_data_test(case, rot).evaluate()
+        return relayout_result(kind, build_data_test(case, rot).evaluate(), case.get('rlay'))
     if kind in CORR_KINDS:
         from valjean.gavroche.stat_tests.bonferroni import TestBonferroni, TestHolmBonferroni
         cls = TestBonferroni if kind == 'bonf' else TestHolmBonferroni
-        return cls(name='correction', test=build_data_test(case, rot), alpha=0.01).evaluate()
+        return relayout_result(kind, cls(name='correction', test=build_data_test(case, rot),
+                                         alpha=0.01).evaluate(), case.get('rlay'))
     if kind == 'meta':
         from valjean.gavroche.diagnostics.metadata import TestMetadata
         dmd = OrderedDict()
@@ -851,6 +922,17 @@ def gen_data_case(rng, kind, big=False):
         case['ndf'] = rng.choice([20, 100])
     if kind in DATA_KINDS and shape and rng.random() < 0.8:
         case['ops'] = rand_ops(rng, shape)
+    # memory layouts of the arrays handed to the code (values, errors; arrays of the result object)
+    if shape and rng.random() < 0.6:
+        mode = rng.random()
+        if mode < 0.35:
+            case['lay'] = rng.choice('FTSN')                       # every array alike
+        else:
+            case['lay'] = ''.join(rng.choice(LAYOUTS) for _ in range(2 + 2 * nds))
+        if 'B' in case['lay']:
+            case['const_err'] = True
+        if rng.random() < 0.5:
+            case['rlay'] = ''.join(rng.choice(LAYOUTS) for _ in range(rng.randint(1, 4)))
     return case
 
 
@@ -944,6 +1026,18 @@ CORPUS = [
     {'kind': 'holm', 'shape': [3], 'bins': ['c'], 'fail': [[0, 0, 0], [1, 0, 0], [0, 2, 0]], 'ndf': 100},
     {'kind': 'bonf', 'shape': [2, 2], 'bins': ['e', 'c'], 'fail': [[1, 0, 0, 0], [0, 0, 0, 0], [0, 0, 2, 0]], 'ndf': 20},
     {'kind': 'holm', 'shape': [], 'bins': [], 'fail': [[0], [1]], 'ndf': 20},
+    # memory layouts: Fortran-ordered / transposed / strided / broadcast arrays, same logical content
+    {'kind': 'equal', 'shape': [2, 3], 'bins': ['e', 'c'], 'fail': [[0, 0, 0, 1, 0, 0]], 'lay': 'F',
+     'ops': [['get', [[None, None], [1, None]]], ['join', [1]]]},
+    {'kind': 'approx', 'shape': [3, 2], 'bins': ['c', 'e'], 'fail': [[0, 1, 0, 0, 0, 0], [0, 0, 0, 0, 1, 0]],
+     'lay': 'T', 'rlay': 'C'},
+    {'kind': 'equal', 'shape': [2, 2, 2], 'bins': ['e', 'e', 'e'], 'fail': [[0, 0, 1, 0, 0, 0, 0, 0]],
+     'lay': 'CCFF', 'rlay': 'F'},
+    {'kind': 'student', 'shape': [2, 3], 'bins': ['e', 'e'], 'fail': [[0, 1, 0, 0, 0, 1], [1, 0, 0, 0, 0, 0]],
+     'ndf': 20, 'lay': 'FBSNTC', 'const_err': True, 'rlay': 'TF', 'ops': [['get', [[1, None]]]]},
+    {'kind': 'holm', 'shape': [3, 2], 'bins': ['c', 'c'], 'fail': [[0, 0, 0, 0, 0, 0], [0, 0, 0, 1, 0, 0]],
+     'ndf': 20, 'lay': 'TS', 'rlay': 'FNS'},
+    {'kind': 'bonf', 'shape': [4], 'bins': ['e'], 'fail': [[0, 1, 0, 0]], 'ndf': 20, 'lay': 'SN', 'rlay': 'B'},
     {'kind': 'tasks', 'counts': []},                                       # empty summary
     {'kind': 'tests', 'counts': []},
     {'kind': 'tasks', 'counts': [['FAILED', 2]]},                          # first row is a failure
